@@ -1,11 +1,11 @@
 SPECIFICATION SpecCore
 CONSTANTS
-  MCCat <- CatCustom
-  MCSub <- SubCustom
-  RootClasses <- RootsCustom
-  FilterStrs <- FilterCustom
-  AssignSpecs <- AssignCustom
-  MaxSteps = 2
+  MCCat <- CatNet
+  MCSub <- SubNet
+  RootClasses <- RootsNet
+  FilterStrs <- FilterNet
+  AssignSpecs <- AssignNet
+  MaxSteps = 3
   DirectCalls = TRUE
 INVARIANT Shape
 INVARIANT Resolves
